@@ -1,4 +1,179 @@
 import PgFdr.Proofs.C08
+import PgFdr.Proofs.C08Semi
+
+/-!
+# C08 — in-silico digestion yields exactly the peptides the cleavage rule defines
+
+Property text (properties.jsonl): "For full, semi-specific and non-specific digestion the set of
+peptides generated from a protein equals the set of its substrings whose length lies within the
+configured bounds, whose required termini (both, at least one, none) coincide with a protein
+terminus, an enzymatic cleavage site or the site behind a removable initiator methionine, and that
+span at most the allowed number of enzymatic cleavage sites. A cleavage site is exactly a position
+after a 'pre' residue not followed by a 'not_post' residue or before a 'post' residue, for every
+supported enzyme."
+
+The executable model (`fullDigest`, `semiDigest`, `nonSpecific`, `digestByName`, `enz`) lives in
+`PgFdr/Model/C08.lean` and is what the driver op `digest` runs against `digest.get_digested_peptides`;
+the declarative side (`RuleAt`, `Site`, `MetSite`, `Terminus`, `innerSites`, `Valid`) is defined there
+too.  Helper lemmas: `PgFdr/Proofs/C08.lean`.  The enzyme table `PgFdr.Generated.enzymes` is
+regenerated from `ENZYME_CLEAVAGE_RULES` on every run.
+-/
 namespace PgFdr.C08
-theorem placeholder_tmp : True := trivial
+open PgFdr.Generated
+
+/-- "A cleavage site is exactly a position after a 'pre' residue not followed by a 'not_post' residue or
+    before a 'post' residue, for every supported enzyme": at every internal cut position `x` the site test
+    the code applies at residue `x - 1` (with its clamped look-ahead) is the rule — for every rule record,
+    hence for every enzyme of the table. -/
+theorem site_iff_rule (r : EnzymeRule) (seq : List Char) (x : Nat) (h1 : 1 ≤ x) (h2 : x < seq.length) :
+    (enz r seq (x - 1) = true ↔ RuleAt r seq x) ∧
+    (x ∈ (sitesZ r seq).map (· + 1) ↔ Site r seq x) ∧
+    (isEnzymatic r (seq.getD (x - 1) ' ') (seq.getD x ' ') = true ↔ RuleAt r seq x) := by
+  refine ⟨enz_iff_rule r seq x h1 (by omega), ?_, ?_⟩
+  · rw [← siteCut_iff_site]
+    simp only [List.mem_map, SiteCut]
+    constructor
+    · rintro ⟨z, hz, rfl⟩; exact ⟨z, hz, rfl, by omega⟩
+    · rintro ⟨z, hz, rfl, _⟩; exact ⟨z, hz, rfl⟩
+  · simp [isEnzymatic, RuleAt]
+
+/-- "… for every supported enzyme": the same, by name, over the regenerated table -/
+theorem site_iff_rule_table (name : String) (r : EnzymeRule) (_h : lookupEnzyme name = some r)
+    (seq : List Char) (x : Nat) (h1 : 1 ≤ x) (h2 : x < seq.length) :
+    enz r seq (x - 1) = true ↔ RuleAt r seq x :=
+  (site_iff_rule r seq x h1 h2).1
+
+/-- the regenerated table is well formed: enzyme names are distinct (the lookup by name is unambiguous),
+    every residue is an upper-case letter, the default enzyme is in the table, and `no_enzyme` has no site -/
+theorem enzymes_wellformed :
+    (enzymes.map (·.name)).Nodup ∧
+    (∀ r ∈ enzymes, ∀ ch ∈ r.pre ++ r.notPost ++ r.post, ch.isUpper = true) ∧
+    (lookupEnzyme enzymeDefault).isSome = true ∧
+    lookupEnzyme "no_enzyme" = some { name := "no_enzyme", pre := [], notPost := [], post := [] } := by
+  refine ⟨by decide, by decide, by decide, by decide⟩
+
+/-- "For full … digestion the set of peptides generated from a protein equals the set of its substrings
+    whose length lies within the configured bounds, whose required termini (both …) coincide with a protein
+    terminus, an enzymatic cleavage site or the site behind a removable initiator methionine, and that span
+    at most the allowed number of enzymatic cleavage sites" — for every rule, every non-empty sequence,
+    every window with `min_len ≥ 1`, every budget and both methionine settings. -/
+theorem full_digest_set_eq (r : EnzymeRule) (seq : List Char) (minL maxL mc : Nat) (met : Bool)
+    (hne : seq ≠ []) (hmin : 1 ≤ minL) :
+    ∃ l, fullDigest r seq minL maxL mc met = .ok l ∧
+      ∀ x, x ∈ l ↔ ∃ a b, Valid .full r minL maxL mc met seq a b ∧ x = slice seq a b := by
+  cases seq with
+  | nil => exact absurd rfl hne
+  | cons ch t =>
+    refine ⟨_, rfl, ?_⟩
+    intro x
+    rw [mem_fullPeptides]
+    have hn1 : 1 ≤ (cfgOf (ch :: t) minL maxL mc met).n := by simp [cfgOf]
+    constructor
+    · rintro ⟨a, b, hE, rfl⟩
+      refine ⟨a, b, ?_, rfl⟩
+      rw [← zvalid_iff_valid]
+      exact (zfull_digest_set_eq _ _ hn1 hmin (sitesZ_sorted r _) (sitesZ_lt r _) a b).mp hE
+    · rintro ⟨a, b, hV, rfl⟩
+      refine ⟨a, b, ?_, rfl⟩
+      rw [← zvalid_iff_valid] at hV
+      exact (zfull_digest_set_eq _ _ hn1 hmin (sitesZ_sorted r _) (sitesZ_lt r _) a b).mpr hV
+
+/-- "For … semi-specific … digestion the set of peptides generated from a protein equals the set of its
+    substrings whose length lies within the configured bounds, whose required termini (… at least one …)
+    coincide with a protein terminus, an enzymatic cleavage site or the site behind a removable initiator
+    methionine, and that span at most the allowed number of enzymatic cleavage sites" — soundness and
+    completeness, for every rule, every non-empty sequence, every window, budget and methionine setting
+    (the model has the repaired Met handling of fixes/C08-semi-met-site.diff). -/
+theorem semi_digest_set_eq (r : EnzymeRule) (seq : List Char) (minL maxL mc : Nat) (met : Bool)
+    (hne : seq ≠ []) :
+    ∃ l, semiDigest r seq minL maxL mc met = .ok l ∧
+      ∀ x, x ∈ l ↔ ∃ a b, Valid .semi r minL maxL mc met seq a b ∧ x = slice seq a b := by
+  cases seq with
+  | nil => exact absurd rfl hne
+  | cons ch t =>
+    refine ⟨_, rfl, ?_⟩
+    intro x
+    rw [mem_semiPeptides]
+    have hn1 : 1 ≤ (semiCfg r (ch :: t) minL maxL mc met).n := by simp [semiCfg]
+    have hmet := semiMet_site r (ch :: t) minL maxL mc met
+    have key := zsemi_set_eq (semiCfg r (ch :: t) minL maxL mc met) (semiSite r (ch :: t)) hn1 hmet
+    rw [siteList_semi] at key
+    constructor
+    · rintro ⟨a, b, hE, rfl⟩
+      exact ⟨a, b, (zvalidSemi_iff_valid r _ hne minL maxL mc met a b).mp ((key a b).mp hE), rfl⟩
+    · rintro ⟨a, b, hV, rfl⟩
+      exact ⟨a, b, (key a b).mpr ((zvalidSemi_iff_valid r _ hne minL maxL mc met a b).mpr hV), rfl⟩
+
+/-- soundness half of `semi_digest_set_eq`, kept under the planned name -/
+theorem semi_digest_sound (r : EnzymeRule) (seq : List Char) (minL maxL mc : Nat) (met : Bool) (hne : seq ≠ [])
+    (l : List (List Char)) (hl : semiDigest r seq minL maxL mc met = .ok l) (x : List Char) (hx : x ∈ l) :
+    ∃ a b, Valid .semi r minL maxL mc met seq a b ∧ x = slice seq a b := by
+  obtain ⟨l', hl', h⟩ := semi_digest_set_eq r seq minL maxL mc met hne
+  rw [hl] at hl'
+  cases hl'
+  exact (h x).mp hx
+
+/-- completeness half of `semi_digest_set_eq`, kept under the planned name -/
+theorem semi_digest_complete (r : EnzymeRule) (seq : List Char) (minL maxL mc : Nat) (met : Bool) (hne : seq ≠ [])
+    (a b : Nat) (hv : Valid .semi r minL maxL mc met seq a b) :
+    ∃ l, semiDigest r seq minL maxL mc met = .ok l ∧ slice seq a b ∈ l := by
+  obtain ⟨l, hl, h⟩ := semi_digest_set_eq r seq minL maxL mc met hne
+  exact ⟨l, hl, (h _).mpr ⟨a, b, hv, rfl⟩⟩
+
+/-- "For … non-specific digestion the set of peptides generated from a protein equals the set of its
+    substrings whose length lies within the configured bounds" (no terminus condition, no site budget) -/
+theorem nonspecific_set_eq (r : EnzymeRule) (seq : List Char) (minL maxL mc : Nat) (met : Bool)
+    (hmin : 1 ≤ minL) (x : List Char) :
+    x ∈ nonSpecific seq minL maxL ↔ ∃ a b, Valid .none r minL maxL mc met seq a b ∧ x = slice seq a b := by
+  rw [mem_nonSpecific]
+  constructor
+  · rintro ⟨i, j, h1, h2, h3, rfl⟩
+    exact ⟨i, j, ⟨by omega, h3, by omega, by omega, trivial, fun h => absurd rfl h⟩, rfl⟩
+  · rintro ⟨a, b, ⟨h1, h2, h3, h4, _, _⟩, rfl⟩
+    exact ⟨a, b, by omega, by omega, h2, rfl⟩
+
+/-- "For full, semi-specific and non-specific digestion …": `get_digested_peptides`, looked up by enzyme name in
+    the regenerated table, yields for every supported enzyme, every non-empty sequence, every window with
+    `min_len ≥ 1`, budget, mode string and methionine setting exactly the substrings the declarative rule allows -/
+theorem digest_by_name_set_eq (name : String) (r : EnzymeRule) (hr : lookupEnzyme name = some r)
+    (seq : List Char) (minL maxL mc : Nat) (digestion : String) (met : Bool) (hne : seq ≠ []) (hmin : 1 ≤ minL) :
+    ∃ l, digestByName name seq minL maxL digestion mc met = .ok l ∧
+      ∀ x, x ∈ l ↔ ∃ a b, Valid (modeOf digestion) r minL maxL mc met seq a b ∧ x = slice seq a b := by
+  unfold digestByName
+  rw [hr]
+  simp only
+  cases hm : modeOf digestion with
+  | full => exact full_digest_set_eq r seq minL maxL mc met hne hmin
+  | semi => exact semi_digest_set_eq r seq minL maxL mc met hne
+  | none => exact ⟨_, rfl, fun x => nonspecific_set_eq r seq minL maxL mc met hmin x⟩
+
+/-! Non-vacuity: concrete inputs.  `MAKAAK` with trypsin, window 1–50, budget 0, Met cleavage on:
+the declarative rule allows `AK` (cut positions 1 = Met site, 3 = after K) and the executable model yields it;
+the lys-n protein `MK` (site behind the Met is enzymatic) in semi mode with budget 0 yields `M`, `K` but not `MK`. -/
+
+private def trypsin : EnzymeRule := { name := "trypsin", pre := ['K', 'R'], notPost := ['P'], post := [] }
+private def lysN : EnzymeRule := { name := "lys-n", pre := [], notPost := [], post := ['K'] }
+
+example : lookupEnzyme "trypsin" = some trypsin := by decide
+example : lookupEnzyme "lys-n" = some lysN := by decide
+
+example : Valid .full trypsin 1 50 0 true ['M', 'A', 'K', 'A', 'A', 'K'] 1 3 :=
+  ⟨by decide, by decide, by decide, by decide,
+   ⟨Or.inr (Or.inr (Or.inr ⟨rfl, rfl, rfl⟩)), Or.inr (Or.inr (Or.inl (by decide)))⟩, fun _ => by decide⟩
+
+example : fullDigest trypsin ['M', 'A', 'K', 'A', 'A', 'K'] 1 50 0 true =
+    .ok [['M'], ['M', 'A', 'K'], ['A', 'K'], ['A', 'A', 'K']] := by rfl
+
+example : fullDigest trypsin ['A', 'A', 'A', 'A', 'A', 'K', 'A', 'A', 'A', 'A', 'A'] 6 50 0 true =
+    .ok [['A', 'A', 'A', 'A', 'A', 'K']] := by rfl
+
+example : semiDigest lysN ['M', 'K'] 1 3 0 true = .ok [['M'], ['K']] := by rfl
+
+example : Valid .semi lysN 1 3 0 true ['M', 'K'] 0 1 :=
+  ⟨by decide, by decide, by decide, by decide, Or.inl (Or.inl rfl), fun _ => by decide⟩
+
+example : ¬ Valid .semi lysN 1 3 0 true ['M', 'K'] 0 2 := fun h => absurd (h.budget (by decide)) (by decide)
+
+example : Site trypsin ['M', 'A', 'K', 'A', 'A', 'K'] 3 := by decide
+
 end PgFdr.C08
